@@ -2083,6 +2083,9 @@ static int32_t parse_XTA(ParserBuilder *aParserBuilder,
 
     // Reset position tracking
     tracker.setPath(ch, xpath);
+    // The start token and an end of input met first are not scanned: give them the start of the text
+    // rather than the location of the last token of the previous parse.
+    yylloc.start = yylloc.end = tracker.position;
 
     // Parse string
     int res = 0;
@@ -2107,6 +2110,7 @@ static int32_t parseProperty(ParserBuilder *aParserBuilder, const std::string& x
 
     // Reset position tracking
     tracker.setPath(ch, xpath);
+    yylloc.start = yylloc.end = tracker.position;
 
     return utap_parse() ? -1 : 0;
 }
